@@ -15,6 +15,8 @@ SCRIPTS = ["G:1|G:1", "G:1|G:2|Z", "G:1;G:1|G:1;Z", "G:3|G:1|G:1", "G:1|G:1|G:1|
            # contents: a store into the newest page must survive, pages start out zero, old contents are kept
            # deltas whose sum with the current size wraps 32 bits
            "G:4294967295|G:1;Z", "G:4294967294;Z|G:2;Z", "G:4294967293;Z;G:1",
+           # a notify (nobody waits) on the growing memory: it uses the same mutex
+           "G:1;G:1|G:1;Z|N:8;N:8", "G:2|N:16|G:1;N:16",
            "G:1|W:7;R:1;R:1", "W:5;G:1;R:0|R:1;W:9;R:1", "G:1;R:1|G:1;W:3;R:2;R:1", "W:4;G:2|R:0;W:6;R:0;R:2"]
 
 
@@ -49,7 +51,8 @@ def main():
         exe = os.path.join(wd, "mg")
         rc, out, err = run(["gcc", "-O1", "-g", "-w", "-fsanitize=address", "-include", os.path.join(BINDC, "sched_shim.h"),
                             "-I", os.path.join(REPO, "w2c2"), "-I", BINDC, os.path.join(BINDC, "memgrow_driver.c"),
-                            os.path.join(BINDC, "sched.c"), "-o", exe, "-lpthread", "-lm"], timeout=300)
+                            os.path.join(BINDC, "sched.c"), *[os.path.join(REPO, "futex", f_) for f_ in ("futex.c", "map.c", "list.c")],
+                            "-o", exe, "-lpthread", "-lm"], timeout=300)
         shim_ok = rc == 0
         if not shim_ok:
             # the tree uses thread primitives the deterministic layer does not provide (it knows the macros of the pinned runtime):
@@ -100,6 +103,23 @@ def main():
             for k_, n_ in sres.items():
                 if k_ != "rounds" and n_:
                     v.deviation("grow:stress:%s" % k_, sres)
+        # 2b. a shared memory with the largest maximum, grown far beyond what the other drivers reach: its storage never moves
+        bigx = os.path.join(wd, "mgbig")
+        rc, out, err = run(["gcc", "-O1", "-g", "-w", "-fsanitize=address", "-DWASM_THREADS_PTHREADS", "-I", os.path.join(REPO, "w2c2"),
+                            os.path.join(BINDC, "memgrow_big.c"), "-o", bigx, "-lpthread", "-lm"], timeout=300)
+        if rc != 0:
+            raise common.MachineryError("cannot build the big-memory grow test: " + err[-2000:])
+        rc, out, err = run([bigx], timeout=300, env={"ASAN_OPTIONS": "detect_leaks=0"})
+        try:
+            bres = json.loads(out.strip().splitlines()[-1])
+        except (ValueError, IndexError):
+            bres = None
+            v.deviation("grow:big:%s" % ("hang" if rc == -999 else "crash"), {"rc": rc, "stderr": err[-800:]})
+        if bres and bres.get("alloc"):
+            for k_ in ("moved", "badpages", "lost", "dirty"):
+                if bres[k_]:
+                    v.deviation("grow:big:%s" % k_, bres)
+        stats["big_memory"] = bres
         # 3. race clause: ThreadSanitizer on real threads
         tsan = os.path.join(wd, "tsan")
         rc, out, err = run(["gcc", "-O1", "-g", "-w", "-fsanitize=thread", "-DWASM_THREADS_PTHREADS", "-I", os.path.join(REPO, "w2c2"),
